@@ -5,6 +5,7 @@ D2 Skip arm: no call, None; Try arm: `.ok()` and no `?`; Enforce arm: `Some(call
 D3 BadGame is produced only under check_app_id && !is_specified_id, and is_specified_id becomes true only under
    equality of the reported app id with one of the expected ids (value analysis of get_response);
 D4 Unreal 2 sequencing: server info unconditionally first; skipped/failed sections default."""
+import re
 from ..core import Report
 from . import common as K
 from .. import hirlib as H, mirq as Q
@@ -172,6 +173,55 @@ def run(tier, config):
                         "is_specified_id is set to true without an equality between info.appid and an expected id on the path", None)
         rep.add("gamedig::protocols::valve::protocol::get_response|app-id|assignments", "C11:D3", n_true == 2,
                 "%d assignments of true (first id, dedicated id)" % n_true)
+        # must-pass-through: no success return can skip the app-id decision
+        oks = [bi for bi, s_, kd, ops in Q.aggregates(f, "core::result::Result") if kd["variant"] == "Ok" and s_["lhs"] == [0, []]]
+        cmp_blocks = []
+        for bi, blk in enumerate(b.blocks):
+            for s_ in blk["stmts"]:
+                if s_["k"] == "assign" and s_["rv"][0] == "bin" and s_["rv"][1] == "Eq":
+                    r = b.render_rvalue(s_["rv"], 4, names=False)
+                    if ".appid" in r:
+                        cmp_blocks.append(bi)
+        heads = []
+        if cmp_blocks:
+            b0 = min(cmp_blocks)
+            for bi, blk in enumerate(b.blocks):
+                t_ = blk["term"]
+                if t_ and t_["k"] == "switch" and b.dominates(bi, b0):
+                    r = b.render_operand(t_["d"], 5, names=False)
+                    if re.match(r"^discr\(\(?[&*]*arg2\b", r):
+                        heads.append(bi)
+        if not oks or not cmp_blocks or not heads or not bad:
+            rep.add("gamedig::protocols::valve::protocol::get_response|app-id|pass-through", "C11:D3", False,
+                    "cannot locate the app-id decision (engine test %s, appid comparison %s, success returns %s)" % (heads, cmp_blocks, oks), f["span"])
+        else:
+            hcopy = list(heads)
+            head = min(hcopy, key=lambda x: len([y for y in hcopy if b.dominates(y, x)]))
+            not_dom = [x for x in oks if not b.dominates(head, x)]
+            # guard block: nearest switch dominating the BadGame construction
+            bg = bad[0][0]
+            guards = [bi for bi, blk in enumerate(b.blocks) if blk["term"] and blk["term"]["k"] == "switch" and b.dominates(bi, bg) and bi != bg]
+            gcopy = list(guards)
+            guards = sorted(gcopy, key=lambda x: -len([y for y in gcopy if b.dominates(y, x)]))
+            guard_chain = set(guards[:2])  # `!is_specified_id && check_app_id` is two switches
+            # from the first appid comparison, can a success return be reached without passing a guard switch?
+            seen = set()
+            st_ = [min(cmp_blocks)]
+            leak = None
+            while st_:
+                x = st_.pop()
+                if x in seen or x in guard_chain:
+                    continue
+                seen.add(x)
+                if x in oks:
+                    leak = x
+                    break
+                st_.extend(b.succ[x])
+            ok_pt = not not_dom and leak is None
+            rep.add("gamedig::protocols::valve::protocol::get_response|app-id|pass-through", "C11:D3", ok_pt,
+                    "every success return is dominated by the engine/app-id decision and, once an expected id is being compared, can only be reached through the BadGame guard" if ok_pt else
+                    ("a success return (block %s) is not dominated by the app-id decision: for some settings the check is skipped" % not_dom if not_dom else
+                     "a success return (block %s) is reachable from the app-id comparison without passing the BadGame guard" % leak), f["span"])
         # BadGame is constructed nowhere else on the valve path
         others = [(g, v) for (g, bi, v, at) in Q.enum_values(c, "gamedig::errors::kind::GDErrorKind") if v == "BadGame" and g["path"] != f["path"] and "tests" not in g["path"] and not g["path"].startswith("gamedig::errors")]
         rep.add("BadGame|constructors", "C11:D3", not others, "BadGame constructed only in get_response" if not others else "BadGame also constructed in %s" % [Q.disp(g) for g, _ in others])
